@@ -111,7 +111,7 @@ func Run(r *vh.Run) {
 		{"rejects", r.Pick(5, 80), scenRejects, false},
 		{"unknownid", r.Pick(3, 40), scenUnknownID, false},
 		{"matrix", r.Pick(20, 60), scenMatrix, true},
-		{"syncclose", r.Pick(5, 40), scenSyncClose, false},
+		{"syncclose", r.Pick(6, 42), scenSyncClose, false},
 		{"relay", r.Pick(3, 30), scenRelay, false},
 		{"caps", r.Pick(6, 120), scenCaps, false},
 		{"capsout", r.Pick(3, 32), scenCapsOut, false},
@@ -1108,6 +1108,7 @@ func scenMatrix(name string, rng *vh.RNG, r *vh.Run) {
 //	variant 4  17 to 22 peers, one block per request and at least as many requests as peers, all
 //	           held on the serving side; Close when every peer has a request in flight (every
 //	           worker owes one more response after the orchestrator has stopped reading)
+//	variant 5  like 4 with 129 to 140 peers: more than the response channel's capacity
 //	variant 3  four peers, two requests: one peer answers, the manager rejects the blocks
 //	           (ingestion error aborts the round) while the other peers' requests are in flight;
 //	           then Close
@@ -1118,9 +1119,9 @@ func scenMatrix(name string, rng *vh.RNG, r *vh.Run) {
 func scenSyncClose(name string, rng *vh.RNG, r *vh.Run) {
 	idx := 0
 	fmt.Sscanf(name[len("syncclose"):], "%d", &idx)
-	variant := []int{0, 2, 3, 1, 4}[idx%5]
+	variant := []int{0, 2, 3, 1, 4, 5}[idx%6]
 	if v := os.Getenv("VERIF_C18_SYNCCLOSE_PEERS"); v != "" {
-		variant = 4 // manual experiment: many peers (see DESIGN C18)
+		variant = 4 // manual experiment: a chosen number of peers (see DESIGN C18)
 	}
 	hold := variant == 0
 	nBlocks := 8 + rng.Intn(30)
@@ -1138,6 +1139,11 @@ func scenSyncClose(name string, rng *vh.RNG, r *vh.Run) {
 		if v := os.Getenv("VERIF_C18_SYNCCLOSE_PEERS"); v != "" {
 			fmt.Sscanf(v, "%d", &nPeers)
 		}
+		nBlocks = nPeers + 4
+	case 5:
+		// more peers in one round than parallelSync's response channel holds (128): before the
+		// repair 18a3fb1 Close hung here
+		nPeers = 129 + rng.Intn(12)
 		nBlocks = nPeers + 4
 	}
 	c := &vh.Case{Name: name, Tags: []string{"scen:syncclose", fmt.Sprintf("syncclose-variant:%d", variant)},
@@ -1190,7 +1196,7 @@ func scenSyncClose(name string, rng *vh.RNG, r *vh.Run) {
 		opts = append(opts, syncer.WithMaxSendBlocks(uint64(3+rng.Intn(6))))
 	case 3:
 		opts = append(opts, syncer.WithMaxSendBlocks(uint64((nBlocks+1)/2))) // two requests
-	case 4:
+	case 4, 5:
 		opts = append(opts, syncer.WithMaxSendBlocks(1))
 	}
 	srv, err := newNode("127.0.0.1", "", nil, true, opts...)
@@ -1230,7 +1236,7 @@ func scenSyncClose(name string, rng *vh.RNG, r *vh.Run) {
 			reached = entered > 0
 		case 2:
 			reached = inFlight() >= 2
-		case 4:
+		case 4, 5:
 			reached = inFlight() >= nPeers
 		case 3:
 			_, entered := srv.gate.ingestNow()
